@@ -175,6 +175,10 @@ def worker(run, job):
         order_and_depth(run, arg)
     elif kind == 'PV':
         pv_case(run, arg)
+    elif kind == 'ROOT':
+        # the iteration contract used by ITER (what alpha_beta_start records and hands back) is discharged here as well,
+        # so that this check does not silently rely on C09
+        c09.step_root(run, arg)
     elif kind == 'LIM':
         # justifies the iteration contract's "a cut needs a node/time limit" (depth limits never cut)
         def on_sat(facts):
@@ -210,7 +214,7 @@ def check(run, replay=None):
         run.inconclusive.append('data layout differs')
         return
     run.extra['explanation'] = __doc__
-    jobs = [('LIM', 0), ('ITER', 'max-depth-from-go'), ('ITER', 'node-or-time-limits'), ('SCORE', 0)] + [('PV', p) for p in itertools.product((0, 1), repeat=3)]
+    jobs = [('LIM', 0), ('ROOT', 1), ('ROOT', 2), ('ITER', 'max-depth-from-go'), ('ITER', 'node-or-time-limits'), ('SCORE', 0)] + [('PV', p) for p in itertools.product((0, 1), repeat=3)]
     run.bounds.append('up to 3 iterations; every limit combination and cut point; PV: abstract game with branching 2 and 3 levels, every table content (8 stored-move cases x symbolic presence/legality), length <= 4')
     run.outside += ['byte-level syntax of the info line (format template only)', 'the real-time fields (time, nps) beyond absence of panics']
     run.stubs |= {'iteration contract for alpha_beta_start', 'abstract game', 'transposition table: arbitrary finite map', 'format!/Display opaque'}
